@@ -39,7 +39,8 @@ CORE = CORE24 + ['\n', '$$', '\\(', '\\)', '#', '{verbatim}', '{proof}', '{other
                  '\\usepackage[poorman]{cleveref}\\YYCleverefInput{ymc.sed}',
                  '\\newcommand\\za', '\\def\\zb', '\\za', '\\zb', '\\text', '\\usepackage', '\\LTinput{nofile}', '~', '--', '\\,', '.', '*',
                  '\\documentclass', '\\newtheorem', '=', ',', '\\phantom', '\\hspace', '\\\\[', '|',
-                 '\\newacronym{a}{b}{\ufb03}', '\\newglossaryentry{a}{description={\u00df}}', '\u00df', '\u0130']
+                 '\\newacronym{a}{b}{\ufb03}', '\\newglossaryentry{a}{description={\u00df}}', '\u00df', '\u0130',
+                 '"', 'e\u0301', '\\usepackage{2up}', '\\usepackage{import}', '\\documentclass{my..style}', '\\LTinput{ymcempty.tex}']
 DEFINERS = {'\\newcommand': '\\za', '\\def': '\\zb'}
 _full = None
 
@@ -186,6 +187,7 @@ def cases(tier, which):
             for cfg in MAIN_CFGS + ['extr', 'repl']:
                 yield ['tail', fi, t, cfg]
                 yield ['tail2', fi, t, cfg]
+            yield ['tail3', fi, t, MAIN_CFGS[(fi + t) % 3]]
     # (f) constructs inside a macro body / default value, used at the end of the text
     for bi in range(len(bodies())):
         for ui in range(len(BODY_USES)):
@@ -209,7 +211,7 @@ def cases(tier, which):
 
 # (f) every construct inside the body (or the default value) of a user macro that is used at the very end of the text:
 # generated tokens carry the position of the call; whatever they are turned into must stay inside the source
-RAW_BODIES = ['\n\n', '#1\n\n', ' #1 ', '\\verb|abcdefghij|', '\\verb|ab|#1', '#1#1#1#1', '\\\\', '~~~~', '---', '\\begin{verbatim}abcdefgh\\end{verbatim}',
+RAW_BODIES = ['#1\\)', '\\]x', '\\(', '\n\n', '#1\n\n', ' #1 ', '\\verb|abcdefghij|', '\\verb|ab|#1', '#1#1#1#1', '\\\\', '~~~~', '---', '\\begin{verbatim}abcdefgh\\end{verbatim}',
               '\\ss\\ss', '\\newacronym{a}{b}{\u00df}', '\\newacronym{a}{b}{\ufb03 x}', '\\Gls{ka}', '$$a$$', '\\item', '\\\\[2ex]', '%\n', '\\footnote{#1\n\n#1}',
               '\\section{#1}', "\\'e", '"a', '\\LTinput{nofile}', '\\foreignlanguage{german}{\n    x y}']
 BODY_USES = ['A \\mq{x}', 'A\n\\mq~', 'A \\mq x', '\\mq{}', 'A\\footnote{\\mq{y}}', '\\mq{\\mq{z}}']
@@ -236,7 +238,7 @@ def bodies():
     return _bodies
 
 
-KV_ALPHA = ['a', '=', ',', '{', '}', ' ', 'b', ']', '[']
+KV_ALPHA = ['a', '=', ',', '{', '}', ' ', 'b', ']', '[', 'description', 'text']
 KV_FRAMES = ['\\usepackage[%s]{x}', '\\documentclass[%s]{article}', '\\newglossaryentry{k}{%s}',
              '\\gls@defglossaryentry{k}{%s}\\gls{k}', '\\newacronym[%s]{k}{s}{l}', '\\usepackage[%s]{babel}']
 
@@ -313,6 +315,8 @@ def source_of(case):
         return d[:p] + d[p + 1:q] + d[q + 1:], case[4]
     if kind == 'tail':
         return 'A ' + TAIL_FAULTS[case[1]] + TAIL[:case[2]], case[3]
+    if kind == 'tail3':
+        return 'A\\LTinput{ymcempty.tex} ' + TAIL_FAULTS[case[1]] + TAIL[:case[2]], case[3]
     if kind == 'tail2':
         return 'A\\footnote{B ' + TAIL_FAULTS[case[1]] + TAIL[:case[2]], case[3]
     if kind == 'kv':
